@@ -4,8 +4,11 @@ P="$1"; shift
 cd /repo || exit 2
 git apply --check "$P" || { echo "patch does not apply"; exit 2; }
 git apply "$P"
+# evidence files are rewritten by every run: keep the clean-tree records
+rm -rf /tmp/evidence.keep.$$; cp -r /verif/evidence /tmp/evidence.keep.$$
 for c in "$@"; do
   (cd /verif && ./bin/check "$c" > /tmp/seedcheck.$$ 2>&1; grep -E "^(failed obligation|bounded stand-in)" /tmp/seedcheck.$$ | cut -c1-260 | head -3; grep -E "^(VIOLATION|OK|UNDECIDED|KNOWN|BOUNDED)" /tmp/seedcheck.$$ | cut -c1-260 | head -4; rm -f /tmp/seedcheck.$$)
 done
 git -C /repo checkout -- .
+rm -rf /verif/evidence; mv /tmp/evidence.keep.$$ /verif/evidence
 git -C /repo status --short | head -3
